@@ -149,6 +149,7 @@ func parent(r *vlib.Run) {
 	r.Require("isolation_followers_in_flight_at_leader_expiry", 8)
 	requirePoison(r, int64(rounds(r)))
 	requireMixed(r, int64(rounds(r)))
+	requireCapacity(r, int64(rounds(r)))
 	r.Note("config", map[string]any{"querytimeout_ms": queryTimeout.Milliseconds(), "upstream_timeout_ms": upstreamTimeout.Milliseconds(), "margin_ms": baseMargin.Milliseconds()})
 }
 
